@@ -116,6 +116,8 @@ class C14(object):
         return {k: desc[k] for k in ("scen", "ns", "nf", "wseed", "cfg")}
 
     def execute(self, desc, ctx):
+        conc_pairs = 0
+        layouts = {}
         sim = ctx.sim
         sf = self.sf
         cfg = desc["cfg"]
@@ -156,6 +158,19 @@ class C14(object):
             m = rand_mask(rnd, g, ns, nf)
             mval = rnd.choice([1, 1, 255, 2, 128, 6])
             mask = m.astype(bool) if rnd.random() < 0.4 else (m.astype(np.uint8) * mval)
+
+            def relayout(a, mode):
+                # the same logical array in another memory layout: Fortran order or a strided view of a wider buffer
+                if mode == "f":
+                    return np.asfortranarray(a)
+                if mode == "view":
+                    big = np.zeros((a.shape[0], 2 * a.shape[1] + 1), a.dtype)
+                    big[:, 1::2] = a
+                    return big[:, 1::2]
+                return a
+            lay_d, lay_m = rnd.choice(["c", "c", "f", "view"]), rnd.choice(["c", "c", "f", "view"])
+            data, mask = relayout(data, lay_d), relayout(mask, lay_m)
+            layouts["%s/%s" % (lay_d, lay_m)] = 1
             begin()
             with contextlib.redirect_stdout(io.StringIO()):
                 if scen == "roundtrip":
@@ -276,6 +291,30 @@ class C14(object):
                     viol = V("wrong-pixels", "tosparse_%s: %d pixels returned, %d selected by (mask != 0) & (img > %s); mask value %d"
                              % (kind, ret, len(r), cut, mk.max()))
                 digs.append(enginea.sha(arr["row"].ravel()[:max(ret, 0)], ret))
+            if viol is None and ns * nf <= 2000 and rnd.random() < 0.3:
+                # a second Python thread converts another image at the same time (tosparse_* run without the GIL)
+                ns3, nf3 = rnd.choice([1, 2, 5, 9]), rnd.choice([1, 3, 8])
+                m3 = rand_mask(rnd, g, ns3, nf3)
+                img3 = (g.random((ns3, nf3)) * 1000).astype(img.dtype)
+                vals3 = {"img": img3, "msk": m3.astype(np.uint8), "row": [ns3, nf3], "col": [ns3, nf3], "val": [ns3, nf3],
+                         "cut": vals["cut"], "ns": ns3, "nf": nf3}
+                roles3 = {"img": "in", "msk": "in", "row": "out", "col": "out", "val": "out"}
+                outs, stc = kernels.run_concurrent(sim, [("tosparse_" + kind, vals, roles3), ("tosparse_" + kind, vals3, roles3)],
+                                                   dict(cfg, team=2), gstyle=desc["gstyle"], pct_est=max(50, 10 * (ns * nf + ns3 * nf3)))
+                sts.append(stc)
+                conc_pairs = 1
+                viol = enginea.viol_from_stats(stc, "tosparse_" + kind, {})
+                if viol is not None:
+                    viol["key"] = "tosparse_%s:concurrent:%s" % (kind, viol["class"])
+                for (im_q, m_q), (ret_q, arr_q) in zip(((img, m), (img3, m3)), outs):
+                    if viol is not None:
+                        break
+                    sel_q = m_q & (im_q > cut)
+                    rq, cq = np.nonzero(sel_q)
+                    if ret_q != len(rq) or (arr_q["row"].ravel()[:ret_q] != rq).any() or (arr_q["col"].ravel()[:ret_q] != cq).any() \
+                            or (arr_q["val"].ravel()[:ret_q] != im_q[sel_q]).any():
+                        viol = V("not-reentrant", "two Python threads inside tosparse_%s at the same time on their own images: one of them "
+                                                  "gets other pixels than (mask != 0) & (img > cut)" % kind)
             nontrivial = nnz >= 2
         else:
             # overlaps: a history on reused cache objects
@@ -343,6 +382,8 @@ class C14(object):
                 for k in ("steps", "switches", "teams", "conflicts", "parallel_runs"):
                     meas[k] += mm[k]
         meas["scenario"] = {scen: 1}
+        meas["concurrent_tosparse_pairs"] = conc_pairs
+        meas["data/mask layout"] = layouts
         if scen == "overlaps":
             meas["overlap_frames_offset(row/col)"] = offs
         meas["np_empty_garbage_buffers"] = self.proxy.count
